@@ -559,8 +559,94 @@ func TestC17(t *testing.T) {
 	})
 }
 
+// ---------------------------------------------------------------- multi-batch import with a failing batch write
+
+type BigImportFault struct {
+	Prop   string `json:"property"`
+	Kind   string `json:"kind"` // big_import_fault
+	Leaves int    `json:"leaves"`
+	Skip   bool   `json:"skip_fast"`
+}
+
+func runBigImportFault(c BigImportFault) (v *Violation, positions int) {
+	defer func() {
+		if r := recover(); r != nil {
+			v = &Violation{Prop: "C17", Obs: "bigimport.panic", Msg: fmt.Sprint(r)}
+		}
+	}()
+	src := iavl.NewMutableTree(dbm.NewMemDB(), 0, true, iavl.NewNopLogger())
+	for i := 0; i < c.Leaves; i++ {
+		_, _ = src.Set([]byte(fmt.Sprintf("key-%06d", (i*7919)%1000003)), []byte("v"))
+	}
+	if _, _, err := src.SaveVersion(); err != nil {
+		return &Violation{Prop: "C17", Obs: "harness", Msg: err.Error()}, 0
+	}
+	it, _ := src.GetImmutable(1)
+	nodes, err := ExportAll(it, false)
+	if err != nil {
+		return &Violation{Prop: "C17", Obs: "harness", Msg: err.Error()}, 0
+	}
+	attempt := func(nth int) (error, *TraceDB) {
+		tdb := NewTraceDB()
+		tdb.NoJournal = true
+		if nth > 0 {
+			tdb.FailKindNth = map[string]int{"BatchWrite": nth}
+		}
+		tr := iavl.NewMutableTree(tdb, 0, c.Skip, iavl.NewNopLogger())
+		err := ImportAll(tr, 1, nodes, false)
+		tdb.FailKindNth = nil
+		return err, tdb
+	}
+	err0, t0 := attempt(0)
+	if err0 != nil {
+		return &Violation{Prop: "C17", Obs: "bigimport.faultfree", Msg: err0.Error()}, 0
+	}
+	nw := t0.Kinds["BatchWrite"]
+	for k := 1; k <= nw; k++ {
+		positions++
+		err, tdb := attempt(k)
+		if len(tdb.FailLog) == 0 {
+			continue
+		}
+		if err != nil {
+			continue // reported: fine
+		}
+		// reported as successful although a physical write failed
+		return &Violation{Prop: "C17", Obs: "write_reported_ok.big_import", Msg: fmt.Sprintf("import of %d nodes reports success although batch write #%d of %d failed (%v)", len(nodes), k, nw, tdb.FailLog)}, positions
+	}
+	return nil, positions
+}
+
+func TestC17BigImport(t *testing.T) {
+	rapid.Check(t, func(rt *rapid.T) {
+		c := BigImportFault{Prop: "C17", Kind: "big_import_fault", Leaves: rapid.IntRange(5001, 5300).Draw(rt, "leaves"), Skip: rapid.Bool().Draw(rt, "skip")}
+		if rapid.IntRange(0, 3).Draw(rt, "two") == 0 {
+			c.Leaves = rapid.IntRange(10001, 10200).Draw(rt, "leaves2") // two background flushes
+		}
+		v, n := runBigImportFault(c)
+		if v != nil {
+			reportViolation(rt, "C17", c, v)
+		}
+		Count("C17", "fault_positions", n)
+		Count("C17", "big_import_fault_cases", 1)
+		RecordCase("C17", c, n >= 2, map[string]bool{"call_big_import": true, "write_call": true})
+	})
+}
+
 func init() {
 	customReplayers["C17"] = func(raw json.RawMessage) (*Violation, bool) {
+		var head struct {
+			Kind string `json:"kind"`
+		}
+		_ = json.Unmarshal(raw, &head)
+		if head.Kind == "big_import_fault" {
+			var c BigImportFault
+			if err := json.Unmarshal(raw, &c); err != nil {
+				return &Violation{Prop: "C17", Obs: "harness", Msg: err.Error()}, true
+			}
+			v, _ := runBigImportFault(c)
+			return v, true
+		}
 		var c FaultCase
 		if err := json.Unmarshal(raw, &c); err != nil {
 			return &Violation{Prop: "C17", Obs: "harness", Msg: err.Error()}, true
